@@ -216,6 +216,24 @@ def run(ctx):
                 decorated.append(DECORATIONS[(j + 3) % len(DECORATIONS)](p))
     payloads += [p for p in decorated if expressible(p)]
     ctx.note("decorated_payloads", len(decorated))
+    # self-referential payloads: lines of the code the generator itself emits (banner comments, import lines, the helper's def
+    # line, the return line) - anything that post-processes generated text by searching for its own markers meets them here
+    own = []
+    try:
+        gen = im.generate_text('def p { salt: "s" splitters: u if f == "a" { return "x" weighted 1, "y" weighted 1 } else { return "z" weighted 1 } }', False)
+        gen += "\n" + im.raw_codegen('def p { salt: "s" splitters: u if f == "a" { return "x" weighted 1 } }', True)
+        seen_lines = set()
+        for line in gen.splitlines():
+            t = line.strip()
+            if len(t) >= 6 and t not in seen_lines:
+                seen_lines.add(t)
+                own += [t, t + "PWNED();p=lambda**k:'hijacked'#", t + "\\nPWNED()"]
+    except Exception:  # noqa: BLE001
+        pass
+    own = [p for p in own if expressible(p)]
+    ctx.note("self_referential_payloads", len(own))
+    decorated += own  # (scheduled like the decorated ones)
+    payloads += own
     ctx.note("templated_payloads_not_expressible", len(dropped))
     nrand = ctx.n(400, 20000)
     for _ in range(nrand):
